@@ -360,7 +360,15 @@ def _build_qr_gate_sequence(gate, n_qubits):
 
 
 def _get_row_col(matrix_rotation, n_qubits):
-    a, b, c, d = 1.0, 0.0, 0.0, 1.0
+    # The residual of the Givens sweep is diag(1, ..., 1, phase): no entry below the
+    # diagonal marks its levels, so the last two levels are the default.
+    row = 2 ** n_qubits - 1
+    col = row - 1
+    a = matrix_rotation[col][col]
+    b = matrix_rotation[row][col]
+    c = matrix_rotation[col][row]
+    d = matrix_rotation[row][row]
+    located = False
     for row_idx in range(2 ** n_qubits):
         for col_idx in range(row_idx):
             if matrix_rotation[row_idx][col_idx] != 0 and np.not_equal(
@@ -373,6 +381,16 @@ def _get_row_col(matrix_rotation, n_qubits):
                 d = matrix_rotation[row_idx][row_idx]
                 col = col_idx
                 row = row_idx
+                located = True
+
+    if not located:
+        rest = np.array(matrix_rotation, dtype=complex)
+        rest[row][row] = 1.0
+        if not np.allclose(rest, np.eye(2 ** n_qubits)):
+            raise ValueError(
+                "QR decomposition: a Givens factor could not be located "
+                "(the unitary must not have zero entries)."
+            )
 
     col_qubits, n_diff, row_qubits = _row_and_col_qubits(col, n_qubits, row)
     return np.array([[a, c], [b, d]]), row_qubits, col_qubits, n_diff
